@@ -174,7 +174,9 @@ def r2(ctx):
     else:
         incs = [s for s in stores_to_name(f, q.id) if isinstance(s.ast, ast.AugAssign) and isinstance(s.ast.op, ast.Add)]
         what = "%s += 1" % q.id
-    ctx.need(incs, "C12.R2: the counted quantity is never increased")
+    if not incs:
+        ctx.bad("C12.R2", key(f, "every-field-counted"), site(f), "the quantity the limit_request_fields check reads (%s) is never increased: no field is counted" % what)
+        return
     body = [(t, "true") for t in g.tests() if t.stmt is outer]
     p = None
     r = g.reachable(body, without_nodes=incs, follow_exc=False, stop=lambda n: n is head)
